@@ -27,6 +27,34 @@
 #include "EbDecUtils.h"
 
 #include "EbDecPicMgr.h"
+#include "EbVerifHooks.h"
+
+#ifdef SVT_AV1_VERIF
+/* one event of stream "decdpb": three arguments of the step, then the complete state of the buffer manager
+ * (current buffer, ref_frame_map[], next_ref_frame_map[] as buffer indices (-1 = none), ref_count[], is_free[]) */
+static void verif_dpb_state(EbDecHandle *dec_handle_ptr, const char *ev, long long a0, long long a1, long long a2) {
+    SvtVerifEmitFn fn = svt_verif_emit_fn;
+    if (!fn)
+        return;
+    EbDecPicMgr *mgr = (EbDecPicMgr *)dec_handle_ptr->pv_pic_mgr;
+    long long    s[4 + 2 * REF_FRAMES + 2 * MAX_PIC_BUFS];
+    int          n = 0;
+#define VERIF_BUF_IDX(p) ((p) ? (long long)((p)-mgr->as_dec_pic) : -1LL)
+    s[n++] = a0, s[n++] = a1, s[n++] = a2;
+    s[n++] = VERIF_BUF_IDX(dec_handle_ptr->cur_pic_buf[0]);
+    for (int i = 0; i < REF_FRAMES; i++) s[n++] = VERIF_BUF_IDX(dec_handle_ptr->ref_frame_map[i]);
+    for (int i = 0; i < REF_FRAMES; i++) s[n++] = VERIF_BUF_IDX(dec_handle_ptr->next_ref_frame_map[i]);
+    for (int i = 0; i < MAX_PIC_BUFS; i++) s[n++] = mgr->as_dec_pic[i].ref_count;
+    for (int i = 0; i < MAX_PIC_BUFS; i++) s[n++] = mgr->as_dec_pic[i].is_free;
+#undef VERIF_BUF_IDX
+    fn("decdpb", dec_handle_ptr, ev, n, s);
+}
+#define VERIF_DPB_STATE(h, ev, a0, a1, a2) verif_dpb_state(h, ev, a0, a1, a2)
+#else
+#define VERIF_DPB_STATE(h, ev, a0, a1, a2) \
+    do {                                  \
+    } while (0)
+#endif
 
 #define NUM_REF_FRAMES 8 // TODO: remove (reuse EbObuParse.h macro)
 
@@ -179,6 +207,7 @@ EbDecPicBuf *dec_pic_mgr_get_cur_pic(EbDecHandle *dec_handle_ptr) {
     ps_pic_mgr->as_dec_pic[i].ref_count = 1;
 
     pic_buf = &ps_pic_mgr->as_dec_pic[i];
+    VERIF_DPB_STATE(dec_handle_ptr, "Get", i, frame_info->frame_type == KEY_FRAME, 0);
 
     return pic_buf;
 }
@@ -241,6 +270,8 @@ void dec_pic_mgr_update_ref_pic(EbDecHandle *dec_handle_ptr, int32_t frame_decod
         dec_ref_count_and_rel(dec_handle_ptr->cur_pic_buf[0]);
     }
 
+    VERIF_DPB_STATE(dec_handle_ptr, "Upd", frame_decoded, refresh_frame_flags,
+                    dec_handle_ptr->frame_header.show_existing_frame);
     /* Invalidate these references until the next frame starts. */
     for (ref_index = 0; ref_index < INTER_REFS_PER_FRAME; ref_index++) {
         dec_handle_ptr->remapped_ref_idx[ref_index] = INVALID_IDX;
@@ -281,6 +312,8 @@ void generate_next_ref_frame_map(EbDecHandle *dec_handle_ptr) {
         if (dec_handle_ptr->next_ref_frame_map[ref_index] != NULL)
             ++dec_handle_ptr->next_ref_frame_map[ref_index]->ref_count;
     }
+    VERIF_DPB_STATE(dec_handle_ptr, "Gen", dec_handle_ptr->frame_header.refresh_frame_flags,
+                    dec_handle_ptr->frame_header.show_existing_frame, 0);
 }
 
 // These functions take a reference frame label between LAST_FRAME and
